@@ -42,6 +42,48 @@ FILES = {
 for v in (4, 5, 6, 7, 8, 9, 10, 11, 12, 13, 14):
     FILES[f"bellows/ezsp/v{v}/__init__.py"] = ["C14", "C12", "C13", "C07", "C17", "C09", "C19"]
 
+# (file regex, function regex) -> checks; first match wins; [] = the function is outside every property's anchors
+FUNC_MAP = [
+    (r"ash\.py", r"(Ack|Nak|Data|Rst|RStack|Error|Ash)Frame\.", ["C03", "C04", "C02"]),
+    (r"ash\.py", r"_process_buffer|data_received$|_unstuff|_stuff", ["C02", "C03", "C04"]),
+    (r"ash\.py", r"_send_data_frame|_change_ack_timeout|_handle_ack|_enter_failed_state|error_frame_received|send_data", ["C05", "C04", "C01"]),
+    (r"ash\.py", r"data_frame_received|frame_received|rstack_frame|rst_frame", ["C04", "C11", "C01"]),
+    (r"ash\.py", r".", ["C10", "C11", "C05"]),
+    (r"uart\.py", r".", ["C11", "C10", "C09"]),
+    (r"thread\.py", r".", ["C20"]),
+    (r"multicast\.py", r".", ["C15"]),
+    (r"ezsp/__init__\.py", r"write_config", ["C16", "C09"]),
+    (r"ezsp/__init__\.py", r"_list_command|formNetwork|leaveNetwork|stack_status|wait_for_stack|add_callback|remove_callback|handle_callback", ["C17", "C06"]),
+    (r"ezsp/__init__\.py", r"frame_received", ["C08", "C06", "C10"]),
+    (r"ezsp/__init__\.py", r"write_custom_eui64|can_", ["C14"]),
+    (r"ezsp/__init__\.py", r"set_source_routing|get_board_info|update_policies", []),
+    (r"ezsp/__init__\.py", r".", ["C09", "C10", "C06"]),
+    (r"ezsp/protocol\.py", r"update_policies", []),
+    (r"ezsp/protocol\.py", r".", ["C06", "C08", "C07"]),
+    (r"ezsp/v\d+/__init__\.py", r"_ezsp_frame", ["C08", "C07", "C06"]),
+    (r"ezsp/v\d+/__init__\.py", r"set_extended_timeout|send_|source_route", ["C12"]),
+    (r"ezsp/v\d+/__init__\.py", r"pre_permit|add_transient|read_counters|factory_reset", []),
+    (r"ezsp/v\d+/__init__\.py", r".", ["C14"]),
+    (r"application\.py", r"_handle_frame_sent|send_packet|_get_free_buffers", ["C12"]),
+    (r"application\.py", r"_handle_frame|ezsp_callback_handler|_handle_tc_join|_reset_mfg_id|handle_join|handle_leave", ["C13", "C12"]),
+    (r"application\.py", r"_watchdog", ["C19"]),
+    (r"application\.py", r"load_network_info|write_network_info|reset_network_info|_reset$|_ensure_network_running", ["C14"]),
+    (r"application\.py", r"__init__", ["C12", "C13", "C19"]),
+    (r"application\.py", r".", []),
+    (r"util\.py", r".", ["C14"]),
+    (r"named\.py", r".", ["C18"]),
+]
+
+
+def checks_for(m):
+    import re
+
+    for fre, fnre, checks in FUNC_MAP:
+        if re.search(fre, m["file"]) and re.search(fnre, m["func"]):
+            return checks
+    return FILES[m["file"]]
+
+
 CMP = {ast.Lt: "<=", ast.LtE: "<", ast.Gt: ">=", ast.GtE: ">", ast.Eq: "!=", ast.NotEq: "==", ast.Is: "is not", ast.IsNot: "is",
        ast.In: "not in", ast.NotIn: "in"}
 BIN = {ast.Add: "-", ast.Sub: "+", ast.BitAnd: "|", ast.BitOr: "&", ast.LShift: ">>", ast.RShift: "<<", ast.Mult: "//", ast.FloorDiv: "*",
@@ -354,7 +396,8 @@ def cmd_checks(jobs, only):
         try:
             apply_mutant(wt, m)
             rec = {"id": m["id"], "caught_by": None, "silent": [], "errors": []}
-            for c in FILES[m["file"]]:
+            rec["mapped"] = checks_for(m)
+            for c in rec["mapped"]:
                 env = dict(os.environ, VERIF_REPO=wt, VERIF_EVIDENCE_DIR=wt + "-ev", VERIF_REPLAY_DIR=wt + "-rp", VERIF_FAILFAST="1", VERIF_WORKERS=os.environ.get("MS_PROCS", "4"),
                            )
                 try:
